@@ -32,13 +32,15 @@ FLOORS = {"quick": {"objects_of_a_class_with_slots": 1300, "rows_of_another_shee
                     "ladder_cells_taken_from_above": 2000, "range_key_origins_checked": 8000,
                     "optional_column_missing": 1000, "sheets_with_trailing_content": 1000,
                     "objects_with_two_attributes_read_from_one_column": 1500,
-                    "origins_of_a_repeated_group_title_traced": 600},
+                    "origins_of_a_repeated_group_title_traced": 600, "rows_that_read_like_the_title_row": 300,
+                    "marker_defaults_checked": 2000},
           "thorough": {"objects_of_a_class_with_slots": 5300, "rows_of_another_sheet_read_in_between_with_the_same_rules_object": 3500,
                        "distinct_nontrivial": 50000, "objects_checked": 500000, "attribute_checks": 4000000,
                        "ladder_cells_taken_from_above": 100000, "range_key_origins_checked": 400000,
                        "optional_column_missing": 50000, "sheets_with_trailing_content": 50000,
                        "objects_with_two_attributes_read_from_one_column": 30000,
-                       "origins_of_a_repeated_group_title_traced": 12000}}
+                       "origins_of_a_repeated_group_title_traced": 12000, "rows_that_read_like_the_title_row": 6000,
+                       "marker_defaults_checked": 40000}}
 LEVEL_TEXT = ("Runtime exploration with a reference binding: the real reader runs over generated worksheets (own "
               "worksheet/cell mock) and every attribute of every object is traced back through the reported origin to "
               "the grid, and the origin itself is compared with the cell the harness' own binding selects.")
@@ -694,8 +696,76 @@ def other_routes(ctx, spec, ws, obj_cls, rules, objs, problems):
         problems.append(("entry-points-disagree", {"route": route, "got": len(got), "read_table": len(objs)}))
 
 
+class Term(X.XlsObject):
+    _ATTRS = ['word', 'meaning', 'kind', 'extra', 'note']
+    _NUM_ID_ATTRS = 1
+
+
+NOT_SET = object()      # (a marker of the application: equal to nothing but itself)
+GLOSSARY_WORDS = ["table", "Tisch", "noun", "word", "meaning", "kind", "Art", "verb", " word ", "Word", "x"]
+
+
+def glossary_case(ctx, rng):
+    """a table of texts only (a glossary): any word may stand in any cell - also the words the columns are titled
+    with, also all of them in one row. Every row up to the first blank one gives an object. Two optional columns are
+    missing: one has a marker object as its default, one a callable"""
+    ctx.evaluated()
+    titles = ["word", "meaning", "kind"]
+    rng.shuffle(titles)
+    lead = rng.randint(0, 1)
+    trail = rng.randint(0, 1)
+    n = rng.randint(0, 7)
+    rows = []
+    for k in range(n):
+        if rng.random() < 0.25:
+            row = list(titles)              # the row reads like the title row
+            if rng.random() < 0.3:
+                row = [" %s " % t for t in row]
+        else:
+            row = [rng.choice(GLOSSARY_WORDS) for _ in titles]
+        rows.append([None] * lead + row + [rng.choice([None, "x"])] * trail)
+    width = lead + 3 + trail
+    grid = [[None] * width] * rng.randint(0, 1) + [[None] * lead + titles + [None] * trail] + rows + \
+        [[None] * width, ["after"] * width]
+    rules = {'word': ('word', X.cell_str), 'meaning': ('meaning', X.cell_str), 'kind': ('kind', X.cell_str),
+             'extra': ('extra', X.cell_str, {'default_val': NOT_SET}),
+             'note': ('note', X.cell_str, {'default_val': (lambda: "made")})}
+    if n % 2:
+        rules['extra'] = X.XlsRecordAttrReadRules('extra', 'extra', X.cell_str, default_val=NOT_SET)
+    case = {"glossary": grid}
+    try:
+        objs = X.read_table(WS("glossary", grid), Term, rules)
+    except Exception as err:
+        ctx.violation("reading-raises", {"type": type(err).__name__, "msg": str(err)[:200]}, case)
+        return
+    ctx.count("glossary_sheets_read")
+    if len(objs) != n or any(o is None for o in objs):
+        ctx.violation("object-count-or-order-differs-from-end-of-table-rule",
+                      {"got": [None if o is None else o.word for o in objs], "expected_rows": n}, case)
+        return
+    t0 = len(grid) - 2 - n
+    for k, (o, row) in enumerate(zip(objs, rows)):
+        if row[lead:lead + 3] == titles or [str(v).strip() for v in row[lead:lead + 3]] == titles:
+            ctx.count("rows_that_read_like_the_title_row")
+        for c, t in enumerate(titles):
+            want = row[lead + c].strip()
+            if getattr(o, t) != want or coord(o.get_attr_origin(t)) != (t0 + k, lead + c):
+                ctx.violation("attribute-differs-from-cell-at-reported-origin",
+                              {"object": k, "attr": t, "value": repr(getattr(o, t)), "origin": o.get_attr_origin(t),
+                               "cell": repr(row[lead + c]), "expected_origin": name_of((t0 + k, lead + c))}, case)
+                return
+        ctx.count("marker_defaults_checked")
+        if not (o.extra == NOT_SET) or o.note != "made":
+            ctx.violation("missing-optional-or-external-attribute-wrong",
+                          {"object": k, "attr": "extra" if o.note == "made" else "note", "value": repr(o.extra)[:60],
+                           "expected": "the declared default (a marker object of the application)"}, case)
+            return
+
+
 def run_shard(ctx):
     for i in range(ctx.cases):
+        if i % 8 == 5:
+            glossary_case(ctx, ctx.rng(i))
         spec = gen_sheet(ctx.rng(i))
         judge(ctx, spec, {"rng_key": ctx.rng_key(i)})
         if i < 2:
@@ -704,4 +774,8 @@ def run_shard(ctx):
 
 
 def replay(ctx, case):
+    if "glossary" in case:
+        for k in range(400):        # (the family is small: it is simply run again)
+            glossary_case(ctx, random.Random(k))
+        return
     judge(ctx, gen_sheet(random.Random(case["rng_key"])), case)
